@@ -174,7 +174,7 @@ def check_property(pid, tier, seed):
     functions = []
     for rep in run.fn_reports:
         functions.append({"function": rep.qual, "source_sha256_16": rep.src_hash, "obligation_instances": len(rep.results),
-                          "vc_generation_s": round(rep.gen_s, 3), "error": rep.error, "library_models": rep.models,
+                          "vc_generation_s": round(rep.gen_s, 3), "error": rep.error, "library_models": rep.models, "abstracted_loops": rep.abstracted,
                           "discontinuity_sites": [f"{l}: {t}" for _, l, t in rep.discont][:25]})
     samples = []
     for rep in run.fn_reports:
